@@ -17,8 +17,9 @@ class RunRepo:
         self.kinds = kinds or {}
         self.commands = list(commands)
         for t in self.cfg["targets"]:
+            cd = t.get("commands", {}).get("path")            # a target may keep its commands somewhere else
             for c in self.commands:
-                self.install(c, t["path"], self.kinds.get((c, t["path"]), "exec"))
+                self.install(c, t["path"], self.kinds.get((c, t["path"]), "exec"), cmd_dir=os.path.join(self.repo, cd) if cd else None)
         self.script = {"*": {}}
         self.write_script()
         self.run_no = 0
